@@ -168,7 +168,8 @@ class ResetMethod(MethodDescriptor):
 
         for attr in self.__spec_class__.attrs:
             try:
-                delattr(self, attr)
+                # A private copy may be mutated even if the class is frozen.
+                self.__delattr__(attr, force=not _inplace)
             except AttributeError:
                 pass
 
